@@ -7,7 +7,7 @@ from ..core import hx
 def pattern_from_path(rng, p, allnames):
     """a pattern of the declared fragment derived from a real path p (bytes)"""
     cs = p.split(b"/")
-    k = rng.randrange(14)
+    k = rng.randrange(16)
     esc = lambda c: b"".join(b"\\" + bytes([x]) if x in b"*?[]\\" else bytes([x]) for x in c)
     cs2 = [esc(c) for c in cs]
     i = rng.randrange(len(cs))
@@ -40,6 +40,12 @@ def pattern_from_path(rng, p, allnames):
         cs2 = cs2[:i + 1]
     elif k == 13:
         cs2[i] = esc(c) + b"*"
+    elif k == 14 and i + 1 < len(cs):
+        # a negated class standing where the separator is: "a/b[^x]c" matches a/b/c (a last component that spans directories)
+        cs2 = cs2[:i] + [cs2[i] + b"[^z]" + cs2[i + 1]] + cs2[i + 2:]
+    elif k == 15:
+        # "**" glued to other characters ("vendor/**LICENSE"): it is ".*", and spans directories as well
+        cs2 = cs2[:i] + [b"**" + esc(cs[-1])]
     out = b"/".join(cs2)
     r = rng.random()
     if r < 0.07:
